@@ -880,3 +880,33 @@ Proof. split; vm_compute; reflexivity. Qed.
 Example iv_fresh_example :
   draw16 ex_rng (draw_pos 0 0) <> draw16 ex_rng (draw_pos 0 1) /\ draw_pos (draw_pos 0 2) 1 = draw_pos 0 3.
 Proof. split; [vm_compute; congruence | reflexivity]. Qed.
+
+(* two different member names of equal length: with header encryption the bytes around the header
+   ciphertext are the same, whatever that ciphertext is *)
+Definition ex_meta' : meta :=
+  mkMeta [[112; 117; 98; 108; 105; 99]] [133000000000000000] [32] [24] [305419896] [24] [] ex_iv.
+
+Example names_example :
+  mt_names ex_meta <> mt_names ex_meta' /\
+  (exists h h' r1 r2, mk_header ex_meta 32 7 = Ok h /\ mk_header ex_meta' 32 7 = Ok h' /\ h <> h' /\
+     write_header true 0 h = Ok r1 /\ write_header true 0 h' = Ok r2 /\ r1 <> r2 /\ blen r1 = blen r2 /\
+     forall hcs hp, assemble 2 h (ex_plain 32) hcs hp = assemble 2 h' (ex_plain 32) hcs hp).
+Proof.
+  split; [vm_compute; congruence|].
+  destruct (mk_header ex_meta 32 7) as [h|] eqn:E1; [|vm_compute in E1; discriminate].
+  destruct (mk_header ex_meta' 32 7) as [h'|] eqn:E2; [|vm_compute in E2; discriminate].
+  destruct (write_header true 0 h) as [r1|] eqn:E3;
+    [|vm_compute in E1; injection E1 as <-; vm_compute in E3; discriminate].
+  destruct (write_header true 0 h') as [r2|] eqn:E4;
+    [|vm_compute in E2; injection E2 as <-; vm_compute in E4; discriminate].
+  exists h, h', r1, r2.
+  assert (Hlen : blen r1 = blen r2).
+  { vm_compute in E1, E2. injection E1 as <-. injection E2 as <-.
+    vm_compute in E3, E4. injection E3 as <-. injection E4 as <-. reflexivity. }
+  assert (Hne : r1 <> r2).
+  { vm_compute in E1, E2. injection E1 as <-. injection E2 as <-.
+    vm_compute in E3, E4. injection E3 as <-. injection E4 as <-. congruence. }
+  repeat split; try assumption.
+  - intros ->. rewrite E3 in E4. injection E4 as ->. congruence.
+  - intros hcs hp. exact (names_only_through_cipher h h' _ hcs hp r1 r2 E3 E4 Hlen).
+Qed.
